@@ -402,6 +402,75 @@ def observe_wedge(case):
     return rec
 
 
+def observe_drawing(case):
+    """a hand-made V2000 drawing of one carbon centre: substituents at random angles around it (an explicit hydrogen may be one of
+    them), one wedge or hash bond that starts at the centre, atoms and bonds in shuffled order.  chython's reading against RDKit's
+    reading of the same block (both as RDKit canonical strings)."""
+    import math
+    from chython import mdl_mol
+    from rdkit import Chem, RDLogger
+    from checks.c01 import full_projection
+    RDLogger.DisableLog('rdApp.*')
+    rnd = random.Random(case['rs'])
+    subs = rnd.sample(['F', 'Cl', 'Br', 'I', 'N', 'O', 'C', 'S'], 3 if case['h'] else 4)
+    if case['h'] == 'explicit':
+        subs.insert(rnd.randrange(4), 'H')
+    n = len(subs)
+    while True:      # angles with gaps of at least 35 degrees
+        ang = sorted(rnd.uniform(0, 360) for _ in range(n))
+        if all((ang[(k + 1) % n] - ang[k]) % 360 >= 35 for k in range(n)):
+            break
+    rnd.shuffle(ang)
+    if case['h'] == 'explicit' and case.get('opposite'):      # the hydrogen opposite to the wedged atom
+        hi = subs.index('H')
+        w = rnd.choice([k for k in range(n) if k != hi])
+        ang[hi] = (ang[w] + 180 + rnd.uniform(-8, 8)) % 360
+        rest = [k for k in range(n) if k not in (hi, w)]
+        ang[rest[0]], ang[rest[1]] = (ang[w] + rnd.uniform(60, 120)) % 360, (ang[w] - rnd.uniform(60, 120)) % 360
+    else:
+        w = rnd.randrange(n)
+        if subs[w] == 'H' and rnd.random() < .5:
+            w = (w + 1) % n
+    atoms = [('C', 0.0, 0.0)] + [(el, 1.3 * math.cos(math.radians(a)), 1.3 * math.sin(math.radians(a))) for el, a in zip(subs, ang)]
+    perm = list(range(len(atoms)))
+    rnd.shuffle(perm)               # perm[new position] = old index
+    pos = {old: new + 1 for new, old in enumerate(perm)}
+    flag = rnd.choice([1, 6])
+    bonds = []
+    for k in range(1, len(atoms)):
+        if k - 1 == w:
+            bonds.append((pos[0], pos[k], flag))                       # a wedge starts at the stereocentre
+        else:
+            a, b = (pos[0], pos[k]) if rnd.random() < .5 else (pos[k], pos[0])
+            bonds.append((a, b, 0))
+    rnd.shuffle(bonds)
+    block = 'drawing\n  verif\n\n' + f'{len(atoms):3d}{len(bonds):3d}  0  0  0  0            999 V2000\n'
+    for old in perm:
+        el, x, y = atoms[old]
+        block += f'{x:10.4f}{y:10.4f}{0.0:10.4f} {el:<3} 0  0  0  0  0  0  0  0  0  0  0  0\n'
+    for a, b, st in bonds:
+        block += f'{a:3d}{b:3d}  1{st:3d}  0  0  0\n'
+    block += 'M  END\n'
+    rec = {'fmt': 'drawing', 'exc': '', 'dom': {'atoms': [], 'bonds': [], 'ct': [], 'rings': []}, 'smi': block}
+    for k in ('cs', 'cs0', 'cr', 'cr0', 'rs', 'rs0', 'rr', 'rr0'):
+        rec[k] = ''
+    r0 = Chem.MolFromMolBlock(block)
+    if r0 is None or not any(a.GetChiralTag() != Chem.ChiralType.CHI_UNSPECIFIED for a in r0.GetAtoms()):
+        return {'skip': 'rdkit-sees-no-centre'}
+    try:
+        b = mdl_mol(block)
+        rec['dom'] = full_projection(b, rings=True)[0]
+        mine = Chem.MolFromSmiles(str(b))
+        if mine is None:
+            rec['exc'] = 'rdkit-rejects-the-string-of-the-molecule-read'
+            return rec
+        rec['cs'], rec['cs0'] = Chem.MolToSmiles(mine), Chem.MolToSmiles(mine, isomericSmiles=False)
+        rec['cr'], rec['cr0'] = Chem.MolToSmiles(r0), Chem.MolToSmiles(r0, isomericSmiles=False)
+    except Exception as e:
+        rec['exc'] = type(e).__name__
+    return rec
+
+
 def repo_files(case):
     """the repository's own test files (written by other programs) must be read without a foreign exception"""
     from chython.files import SDFRead, RDFRead, MRVRead
@@ -509,6 +578,19 @@ def run(ck):
     stereo = [s for s in corp if '@' in s or '/' in s]
     wsel = chy.pick(stereo, 60 if ck.quick else 1200, ck.seed, 4) + ['C[C@H](N)C(=O)O', 'F/C=C/Cl', 'F/C=C\\Cl', 'N[C@@H](Cc1ccccc1)C(=O)O', 'C/C=C\\[C@@H](C)O', 'C[C@]1(F)CCCO1', 'C[C@@](F)(Cl)Br',
                                                                         'O[C@H]1CC[C@@H](Cl)CC1'.replace('Cl', 'F'), 'C[C@H](O)[C@@H](N)C', 'CC1(C)[C@@H]2CC[C@@]1(C)C(=O)C2', 'C/C(F)=C(/Cl)Br', 'O/N=C/c1ccccc1']
+    # hand-made drawings of one centre (explicit hydrogens at any position, also opposite to the wedged atom)
+    dc = [{'key': f'drawing:{h}:{opp}:{k}', 'h': h, 'opposite': opp, 'rs': ck.seed * 7777 + k * 13 + (5 if opp else 0) + len(str(h))}
+          for k in range(40 if ck.quick else 600) for h, opp in (('', 0), ('implicit', 0), ('explicit', 0), ('explicit', 1))]
+    dc = ck.select('drawings', dc)
+    if dc:
+        res = vlib.pmap('checks.c11', 'observe_drawing', dc)
+        for r in res:
+            if '_observer_error' in r:
+                raise vlib.Machinery(r['_observer_error'] + r['_tb'])
+        keep = [(c, r) for c, r in zip(dc, res) if 'skip' not in r]
+        ck.ood('drawings: the other program sees no centre in the drawing', len(dc) - len(keep))
+        if keep:
+            ck.validate('drawings', 'Trace_Wedge', [c for c, _ in keep], [r for _, r in keep])
     wc = ck.select('configuration-across-programs', [{'key': f'wedge:{fmt}:{s}', 'smi': s, 'fmt': fmt} for s in wsel for fmt in ('v2000-aromatic', 'v3000-kekule', 'v2000-kekule')])
     if wc:
         res = vlib.pmap('checks.c11', 'observe_wedge', wc)
